@@ -807,7 +807,10 @@ class CExec:
             self.havoc_heap(head, "loop")
         else:
             for f in list(head.heap):
-                if f in fields or f.startswith("*"):
+                # memory reached through array subscripts / dereferences ("*T" maps) is written only by an
+                # assignment whose target is such an expression ("*" in fields: handled above) or by a call;
+                # analyses that reason about vector CONTENTS (F-SEARCH) keep those maps across a loop without either
+                if f in fields or (f.startswith("*") and not getattr(self, "precise_mem_havoc", False)):
                     head.heap[f] = fresh("H_" + f.replace("*", "deref_").replace(".", "_"), z3.ArraySort(INT, INT))
         self.assume_invariant(n, entry, head)
         s = head.clone()
